@@ -1,5 +1,6 @@
 // C06 - compare is a total order; operators, overloads and hashes agree.
 #include "vrt.h"
+#include <memory>
 #include "vrt_alloc.h"
 #include "vrt_st.h"
 #include "ref_text.h"
@@ -129,6 +130,54 @@ static std::basic_string<T> cut0(const std::basic_string<T> &s)
     return z == std::basic_string<T>::npos ? s : s.substr(0, z);
 }
 
+// an object that holds value v, reached through history `kind` (0..15)
+template <typename T>
+static ST::buffer<T> *with_history(const std::basic_string<T> &v, unsigned kind)
+{
+    typedef ST::buffer<T> B;
+    static const std::basic_string<T> shortres(5, T('z')), longres(40, T('y'));
+    B *o = new B((kind & 1) ? shortres.data() : longres.data(), (kind & 1) ? shortres.size() : longres.size());
+    switch ((kind >> 1) & 3) {
+    case 0: *o = B(v.data(), v.size()); break;                                   // move assignment over the residue
+    case 1: { B src(v.data(), v.size()); *o = src; break; }                      // copy assignment over the residue
+    case 2: o->allocate(v.size()); if (!v.empty()) memcpy(o->data(), v.data(), v.size() * sizeof(T)); break;
+    default:
+        if (v.empty()) { if (kind & 8) o->clear(); else { B taken(std::move(*o)); (void)taken; } }   // cleared / moved-from: the empty value
+        else if (kind & 8) { B mid(v.data(), v.size()); B taken(std::move(*o)); *o = std::move(mid); }   // moved-from, then move-assigned
+        else { B taken(std::move(*o)); o->allocate(v.size(), v[0]); memcpy(o->data(), v.data(), v.size() * sizeof(T)); }
+        break;
+    }
+    return o;
+}
+
+template <typename T>
+static void equal_values_with_history(const char *tn)
+{
+    typedef ST::buffer<T> B;
+    typedef std::basic_string<T> BS;
+    const size_t limit = (sizeof(B) - 16) / sizeof(T);
+    for (size_t len : {size_t(0), size_t(1), size_t(2), limit - 1, limit, limit + 1, size_t(40)}) {
+        BS v;
+        for (size_t k = 0; k < len; ++k) v += static_cast<T>('a' + k % 26);
+        vrt::Box<B> fresh(v.data(), v.size());
+        for (unsigned ka = 0; ka < 16; ++ka)
+            for (unsigned kb = 0; kb < 16; ++kb) {
+                std::unique_ptr<B> x(with_history<T>(v, ka)), y(with_history<T>(v, kb));
+                auto bad = [&](const char *what) {
+                    vrt::violation(sfmt("C06:buffer<%s>:history:%s", tn, what), sfmt("two objects holding the same %zu-unit value, histories %u and %u", len, ka, kb));
+                };
+                vrt::evals(8);
+                if (x->compare(*y) != 0 || y->compare(*x) != 0) bad("compare-of-equal-values");
+                if (!(*x == *y) || !(*y == *x)) bad("operator==-of-equal-values");
+                if (*x != *y) bad("operator!=-of-equal-values");
+                if (*x < *y || *y < *x) bad("operator<-of-equal-values");
+                if (!(*x == *fresh) || *fresh != *y || fresh->compare(*x) != 0) bad("against-a-fresh-object");
+                if (x->compare_n(*y, len + 1) != 0) bad("compare_n-of-equal-values");
+                vrt::count("buffer.equal_values_with_history");
+            }
+    }
+}
+
 template <typename T>
 static void buffer_pair(const char *tn, const std::basic_string<T> &a, const std::basic_string<T> &b)
 {
@@ -162,6 +211,22 @@ static void buffer_pair(const char *tn, const std::basic_string<T> &a, const std
         BEQ("compare_n:sign", sgn(ba->compare_n(*bb, nn)), ref_cmp(pa, pb), ex);
         BEQ("compare_n:static", sgn(B::compare(a.data(), a.size(), b.data(), b.size(), nn)), ref_cmp(pa, pb), ex);
         BEQ("compare_n:cstr", sgn(ba->compare_n(bb->c_str(), nn)), ref_cmp(pa, pbc), ex);
+    }
+    // The same two values held by objects with a history (a value assigned over another one, a cleared or re-allocated
+    // object, the moved-from source of a move): order and equality are functions of the value alone.
+    {
+        const uint64_t h = vrt::fnv1a(b.data(), b.size() * sizeof(T), vrt::fnv1a(a.data(), a.size() * sizeof(T), 0x41));
+        std::unique_ptr<B> ha(with_history<T>(a, static_cast<unsigned>(h % 16))), hb(with_history<T>(b, static_cast<unsigned>((h / 16) % 16)));
+        std::string ex = sfmt("objects with a history (kinds %u, %u)", static_cast<unsigned>(h % 16), static_cast<unsigned>((h / 16) % 16));
+        BEQ("history:compare", sgn(ha->compare(*hb)), want, ex);
+        BEQ("history:operator==", *ha == *hb, want == 0, ex);
+        BEQ("history:operator!=", *ha != *hb, want != 0, ex);
+        BEQ("history:operator<", *ha < *hb, want < 0, ex);
+        BEQ("history:operator==(fresh)", *ha == *bb, want == 0, ex);
+        BEQ("history:operator!=(fresh)", *ba != *hb, want != 0, ex);
+        BEQ("history:compare(fresh)", sgn(ba->compare(*hb)), want, ex);
+        BEQ("history:compare_n", sgn(ha->compare_n(*hb, lim)), want, ex);
+        vrt::count("buffer.pairs_with_history");
     }
     vrt::count(std::string("buffer.pairs.") + tn);
 #undef BEQ
@@ -232,7 +297,7 @@ static void buffer_phase(const char *tn, const std::vector<T> &alpha)
         vrt::distinct(vrt::fnv1a(a.data(), a.size() * sizeof(T), vrt::fnv_str(tn)));
     });
     std::string rname = std::string("buffer_random_") + tn;
-    vrt::phase(rname.c_str(), vrt::tier_count(4000, 300000), [&](uint64_t, Rng &r) {
+    vrt::phase(rname.c_str(), vrt::tier_count(30000, 300000), [&](uint64_t, Rng &r) {
         // long shared prefixes straddling the small-buffer limit
         size_t pre = gen::pick_len(r) % 40;
         std::basic_string<T> p;
@@ -244,6 +309,8 @@ static void buffer_phase(const char *tn, const std::vector<T> &alpha)
         vrt::distinct(vrt::fnv1a(b.data(), b.size() * sizeof(T), vrt::fnv1a(a.data(), a.size() * sizeof(T), vrt::fnv_str(tn))));
     });
     if (vrt::opt().worker == 0 || vrt::opt().single) {
+        std::string ename = std::string("equal_values_with_history_") + tn;
+        vrt::phase(ename.c_str(), 1, [&](uint64_t, Rng &) { equal_values_with_history<T>(tn); });
         std::string hname = std::string("huge_") + tn;
         vrt::phase(hname.c_str(), 1, [&](uint64_t, Rng &) { huge_lengths<T>(tn); });
     }
@@ -255,6 +322,8 @@ static void body()
     vrt::require("string.fold_equal_pairs", 100);
     vrt::require("string.triples", 3000);
     vrt::require("huge.calls", 100);
+    vrt::require("buffer.pairs_with_history", 4000);
+    vrt::require("buffer.equal_values_with_history", 7000);
     vrt::require("buffer.pairs.char", 1000);
     vrt::require("buffer.pairs.wchar_t", 1000);
     vrt::require("buffer.pairs.char16_t", 1000);
@@ -310,7 +379,7 @@ static void body()
     }
 
     // random pairs / triples up to length 40 sharing long prefixes, straddling the SSO limit
-    vrt::phase("string_random", vrt::tier_count(200000, 4000000), [&](uint64_t, Rng &r) {
+    vrt::phase("string_random", vrt::tier_count(1000000, 6000000), [&](uint64_t, Rng &r) {
         S p = gen::bytes_over(r, gen::pick_len(r) % 40, alpha);
         S a = p + gen::bytes_over(r, r.below(3), alpha), b = p + gen::bytes_over(r, r.below(3), alpha), c = p + gen::bytes_over(r, r.below(3), alpha);
         if (r.chance(1, 4)) b = r.chance(1, 2) ? ref::uppered(a) : ref::folded(a);
